@@ -1,6 +1,6 @@
 (* C05 — criteria mean their implication closure, nothing more, however written. *)
 Require Import Base Extracted Criteria Search AuditGraph.
-Require Import CriteriaProofs.
+Require Import CriteriaProofs AuditGraphProofs.
 Local Open Scope N_scope.
 
 (* X counts for X and everything X transitively implies, and for nothing else:
@@ -51,19 +51,7 @@ Proof. exact minimal_irredundant. Qed.
    through [from_list]: an edge's criteria set is the closure of the written list *)
 Theorem C05_edges_use_closure : forall t s e, In e (all_edges t s) ->
   (exists l, fe_crit e = from_list t l) \/ fe_crit e = all_criteria t.
-Proof.
-  intros t s e. unfold all_edges. rewrite !in_app_iff. intros [H|[H|[H|H]]].
-  - unfold audit_edges in H. apply in_flat_map in H. destruct H as [[[src o] a] [_ H]].
-    destruct (au_kind a); cbn in H; try contradiction; destruct H as [<-|[]]; left; eexists; reflexivity.
-  - unfold publisher_edges in H. apply in_flat_map in H. destruct H as [[pi p] [_ H]].
-    rewrite in_app_iff in H. destruct H as [H|H]; apply in_flat_map in H.
-    + destruct H as [[[imp ai] w] [_ H]]. destruct (wildcard_guard _ _ _ _ _); [|contradiction].
-      destruct H as [<-|[]]. left. eexists. reflexivity.
-    + destruct H as [tr [_ H]]. destruct (trusted_guard _ _ _ _ _); [|contradiction].
-      destruct H as [<-|[]]. left. eexists. reflexivity.
-  - unfold unpublished_edges in H. apply in_map_iff in H. destruct H as [[i u] [<- _]]. right. reflexivity.
-  - unfold exemption_edges in H. apply in_map_iff in H. destruct H as [[i x] [<- _]]. left. eexists. reflexivity.
-Qed.
+Proof. exact edge_crit_form. Qed.
 
 (* non-vacuity: in the table [crit2 => safe-to-deploy], [2] means {0,1,2}, and
    [2;1;0;2] (its closure, reordered, duplicated) means the same; its minimal
